@@ -10,6 +10,8 @@ import (
 	"encoding/hex"
 	"encoding/json"
 	"fmt"
+	"image"
+	_ "image/gif"
 	"os"
 	"path/filepath"
 	"sort"
@@ -441,8 +443,10 @@ func (w *World) Add(s *Spec) error {
 			mt := index.VerifFileMIME(content, NameString(s.Name))
 			s.Mime = mt
 			s.ImgW, s.ImgH = 0, 0
-			if strings.HasPrefix(mt, "image/") && bytes.HasPrefix(content, tinyGIF) {
-				s.ImgW, s.ImgH = 1, 1
+			if strings.HasPrefix(mt, "image/") {
+				if cfg, _, err := image.DecodeConfig(bytes.NewReader(content)); err == nil {
+					s.ImgW, s.ImgH = cfg.Width, cfg.Height
+				}
 			}
 			h := blob.NewHash()
 			h.Write(content)
